@@ -154,6 +154,42 @@ def firstFailing (cands : List (List (String × Bool))) : Option String :=
     let best := cands.foldl (fun b c => if score c > score b then c else b) c0
     (best.find? (fun x => !x.2)).map (·.1)
 
+/-- Which fields of a forwarded publication differ from the closest candidate (same transaction if there is one): the text of
+the `…-forwarded-altered` verdicts. -/
+def pubDiffs (p q : Pub) : List String :=
+  (if p.tx ≠ q.tx then [s!"tx {q.tx} -> {p.tx}"] else []) ++
+  (if p.ts ≠ q.ts then [s!"timestamp (ms) {q.ts} -> {p.ts}"] else []) ++
+  (if p.nonce ≠ q.nonce then [s!"nonce {q.nonce} -> {p.nonce}"] else []) ++
+  (if p.seq ≠ q.seq then [s!"sequence {q.seq} -> {p.seq}"] else []) ++
+  (if p.cl ≠ q.cl then [s!"consistencyLevel {q.cl} -> {p.cl}"] else []) ++
+  (if p.emitterChain ≠ q.emitterChain then [s!"emitterChain {q.emitterChain} -> {p.emitterChain}"] else []) ++
+  (if p.targetChain ≠ q.targetChain then [s!"targetChain {q.targetChain} -> {p.targetChain}"] else []) ++
+  (if p.emitter ≠ q.emitter then [s!"emitter {toHex q.emitter} -> {toHex p.emitter}"] else []) ++
+  (if p.payload ≠ q.payload then ["payload"] else [])
+
+def describeAltered (ps : String) (cands : List (String × Pub)) : String :=
+  match parsePub ps with
+  | none => ""
+  | some p =>
+    let same := cands.filter fun c => c.2.tx == p.tx
+    let pool := if same.isEmpty then cands else same
+    match pool with
+    | [] => ""
+    | c0 :: _ =>
+      let best := pool.foldl (fun b c => if (pubDiffs p c.2).length < (pubDiffs p b.2).length then c else b) c0
+      s!"; closest: {best.1}, of which it differs in {pubDiffs p best.2} (event value -> forwarded value)"
+
+/-- how the Watcher of the case was made: the `ctor=` field -/
+def ctorNote (fs : List String) : String :=
+  match kv fs "ctor" with
+  | some "-" | none => ""
+  | some net => s!" [Watcher built by NewAlephiumWatcher from configs/alephium/{net}.json as read by common.ReadConfigsByNetwork(\"{net}\"), isMainnet = {net == "mainnet"}]"
+
+def netNote (fs : List String) : String :=
+  match kv fs "net" with
+  | some "-" | none => ""
+  | some net => s!" [after NewAlephiumWatcher was called with configs/alephium/{net}.json as read by common.ReadConfigsByNetwork(\"{net}\")]"
+
 /-! ## case state -/
 
 structure CaseSt where
@@ -170,6 +206,11 @@ structure CaseSt where
   fetch : Bool := false
   hdrs : List (String × Header) := []   -- headers the node has shown for a block hash (a header is a function of the hash)
   implFrom : Option Int := none         -- next unfetched index according to the implementation's own request log
+  implFromAlt : Option Int := none      -- after a round that failed and delivered nothing while the watcher carried on: the index the round started at
+  note : String := ""                   -- how the Watcher was made (constructor + shipped configuration), for the verdict texts
+  implAlive : Bool := true              -- the implementation's loops are running (no line reported exit=1 since the last start)
+  lost : List (Unconf × Bool) := []     -- served in a page answer of a round that delivered nothing while the watcher carried on; not delivered since
+  reobsFwd : List String := []          -- what re-observation requests of this life handed to the signer
 
 structure St where
   c : CaseSt := {}
@@ -219,9 +260,11 @@ def doConf (st : St) (id : String) (fs : List String) : St × List String :=
     let model := isEventConfirmed m hd now height mainnet
     let spec :=
       if res && inRange hd && !heightFinal m hd height then some s!"height-not-final confirmed with block height {h} + cl {cl} > current height {height}"
-      else if res && inRange hd && !floorOk mainnet m hd now then some s!"mainnet-transfer-floor mainnet transfer confirmed {now - ts} ms after the block (cl {cl})"
+      else if res && inRange hd && !floorOk mainnet m hd now then some s!"mainnet-transfer-floor mainnet transfer confirmed {now - ts} ms after the block (cl {cl}; the floor is max(cl, 205) x 16000 ms = {(max cl 205) * 16000} ms){netNote fs}"
       else none
-    single st id spec (if model = res then none else some s!"isEventConfirmed model={model} impl={res}")
+    let after := (kvNat fs "clafter").getD cl
+    single st id spec (if model ≠ res then some s!"isEventConfirmed model={model} impl={res}"
+                       else if after ≠ cl then some s!"isEventConfirmed changed the message it was asked about: consistencyLevel {cl} -> {after}" else none)
   | _, _, _, _, _, _, _, _ => single st id none (some "unparsable conf line")
 
 def doDur (st : St) (id : String) (fs : List String) : St × List String :=
@@ -229,7 +272,7 @@ def doDur (st : St) (id : String) (fs : List String) : St × List String :=
   | some mainnet, some transfer, some cl, some res =>
     let model : Int := confDur mainnet transfer cl
     let spec := if mainnet && transfer && decide (res < (max cl 205 : Nat) * 16000)
-      then some s!"mainnet-transfer-floor duration {res} ms for a mainnet transfer with cl {cl}" else none
+      then some s!"mainnet-transfer-floor duration {res} ms for a mainnet transfer with cl {cl} (the floor is max(cl, 205) x 16000 ms = {(max cl 205) * 16000} ms){netNote fs}" else none
     single st id spec (if model = res then none else some s!"getConfirmationDuration model={model} impl={res}")
   | _, _, _, _ => single st id none (some "unparsable dur line")
 
@@ -259,7 +302,7 @@ def doHconf (st : St) (id : String) (fs : List String) : St × List String :=
           | none => some "forwarded-altered unparsable publication"
           | some pp =>
             let cands := entries.filter fun c => showPub (pubOf c) == p
-            if cands.isEmpty then some s!"forwarded-altered {p} corresponds to no confirmed event"
+            if cands.isEmpty then some s!"forwarded-altered {p} corresponds to no confirmed event{describeAltered p (entries.map fun c => (s!"event {c.1.ev.id} (sequence {c.1.msg.seq}, block timestamp {c.2.ts}, position {c.1.ev.id} of the batch)", pubOf c))}"
             else if pp.emitter ≠ bridge then some s!"not-token-bridge forwarded a message whose sender {toHex pp.emitter} is not the token bridge"
             else if !(cands.any fun c => c.1.ev.idx == 0) then some s!"event-index forwarded an event with a non-zero event index"
             else if count p impl > cands.length then some s!"forwarded-twice {p}"
@@ -411,7 +454,13 @@ def evalReobs (fs : List String) : ReobsEval :=
                     ("reobs-attest-mismatch", !isAttest m || validateAttest node.ti m)]
             | _, _ => none
           match firstFailing cands with
-          | some cl => some s!"{if cl = "unknown" then "reobs-forwarded-altered" else cl} forwarded {p}"
+          | some cl =>
+            if cl = "unknown" then
+              let all := (evs.getD []).filterMap fun e => match e.conv, o.hdr e.block with
+                | some m, some h => some (s!"event {e.id} of the transaction (block timestamp {h.ts})", toPub tx m h)
+                | _, _ => none
+              some s!"reobs-forwarded-altered forwarded {p}, which is not the message of any event of the transaction{describeAltered p all}{ctorNote fs}"
+            else some s!"{cl} forwarded {p}{if cl = "reobs-mainnet-transfer-floor" then s!" at {now} (the floor is max(cl, 205) x 16000 ms after the block timestamp)" ++ ctorNote fs else ""}"
           | none =>
             let good := cands.filter fun c => c.all (·.2)
             if count p impl > good.length then some s!"reobs-forwarded-twice {p}" else none
@@ -452,7 +501,23 @@ def doWinit (st : St) (id : String) (fs : List String) : St × List String :=
   let (st, out) := flush st
   match kvB fs "mainnet", kvHex fs "bridge", kv fs "gov", kvB fs "fetch", (kv fs "ti").bind parseTi with
   | some mainnet, some bridge, some gov, some fetch, some tbl =>
-    let c : CaseSt := { id := id, active := true, cfg := { mainnet := mainnet, bridge := bridge, gov := gov }, ti := tbl, fetch := fetch }
+    let c : CaseSt := { id := id, active := true, cfg := { mainnet := mainnet, bridge := bridge, gov := gov }, ti := tbl, fetch := fetch, note := ctorNote fs }
+    -- the Watcher the life runs: a struct literal holding the case's values, or what `NewAlephiumWatcher` made of a shipped file
+    let c := match kv fs "w" with
+      | none => c
+      | some w =>
+        let impl := w.splitOn ";"
+        let id32 (h : String) : Option Bytes := match ofHex h with | some b => if b.length = 32 then some b else none | none => none
+        let model : Option Built := match (kv fs "cfg").map (·.splitOn ";"), kv fs "ctor" with
+          | some [b, g, grp, mn], some net =>
+            newWatcher (fun _ => gov) { groupIndex := (parseDec grp).getD 0, governance := id32 g, tokenBridge := id32 b, minimalConsistencyLevel := (parseDec mn).getD 0 } (net == "mainnet")
+          | _, _ => some { cfg := c.cfg, group := ((impl[2]?).bind parseDec).getD 0 }
+        match model with
+        | none => c.addDiff s!"NewAlephiumWatcher: the model rejects the configuration, the implementation built {w}"
+        | some b =>
+          let exp := [toHex b.cfg.bridge, b.cfg.gov, toString b.group, toString b.group, if b.cfg.mainnet then "1" else "0"]
+          let c := if exp ≠ impl then c.addDiff s!"the Watcher of the life: model={exp} impl={impl}" else c
+          if b.cfg.bridge ≠ bridge || b.cfg.gov ≠ gov || b.cfg.mainnet ≠ mainnet then c.addDiff s!"harness: the case's configuration differs from what the constructor is given ({exp})" else c
     let c :=
       if !fetch then c else
       match kv fs "reqs", kvB fs "exit", kvB fs "panic" with
@@ -461,14 +526,14 @@ def doWinit (st : St) (id : String) (fs : List String) : St × List String :=
         match splitList reqs "," with
         | [r] =>
           if r = "count>e" then
-            let c := { c with st := { c.st with alive := false }, faulted := true }
+            let c := { c with st := { c.st with alive := false }, faulted := true, implAlive := !exit }
             if exit then c else c.addDiff "count error at start: model ends, impl continues"
           else if r = "count>404" then
-            let c := { c with implFrom := some 0 }
+            let c := { c with implFrom := some 0, implAlive := !exit }
             if exit then c.addDiff "count 404 at start: impl ended" else c
           else match (if r.startsWith "count>" then parseInt (r.drop 6).toString else none) with
             | some n =>
-              let c := { c with st := { c.st with fromIndex := n }, implFrom := some n }
+              let c := { c with st := { c.st with fromIndex := n }, implFrom := some n, implAlive := !exit }
               if exit then c.addDiff "impl ended on a successful first count" else c
             | none => if r.startsWith "count@" then c.addSpec s!"wrong-contract-polled {r}" else c.addDiff s!"unexpected first request {r}"
         | l => c.addDiff s!"unexpected requests at start {l}"
@@ -501,6 +566,7 @@ def attachIds (served : List Event) (us : List Unconf) : List Unconf :=
 again (by a later incarnation of the watcher, say) is still ONE fetched event — it justifies one forward, and it is owed from
 its latest delivery on. -/
 def trackFetched (c : CaseSt) (us : List Unconf) : CaseSt :=
+  let c := { c with lost := c.lost.filter fun t => !(us.any fun u => u.ev.id == t.1.ev.id) }
   us.foldl (fun c u =>
     if u.ev.id ≠ unknownId && c.tracked.any (fun t => t.1.ev.id == u.ev.id) then
       { c with tracked := c.tracked.map fun t => if t.1.ev.id == u.ev.id then (t.1, true) else t }
@@ -584,7 +650,7 @@ def doWtick (st : St) (fs : List String) : St × List String :=
           c.addSpec "malformed-event-ends-watcher the fetch loop reported an error although every node request succeeded (an event that does not convert ends the watcher)"
         else if !exit && pagesRaw.isEmpty && (match cnt, c.implFrom with | some cn, some f => decide (cn > f) | _, _ => false) then
           c.addSpec s!"fetch-stalled the count ({cnt.getD 0}) is ahead of the next unfetched index ({c.implFrom.getD 0}) but the tick requested no page"
-        else if firstStart.isSome && c.implFrom.isSome && firstStart ≠ c.implFrom then
+        else if firstStart.isSome && c.implFrom.isSome && firstStart ≠ c.implFrom && (c.implFromAlt.isNone || firstStart ≠ c.implFromAlt) then
           c.addSpec s!"page-gap-or-overlap first page requested at {firstStart.getD 0}, but the previous tick ended at nextStart {c.implFrom.getD 0}"
         else if gap then
           c.addSpec s!"page-gap-or-overlap page requests do not continue at the previous nextStart: {nonTi}"
@@ -593,7 +659,10 @@ def doWtick (st : St) (fs : List String) : St × List String :=
                           | some s => c.addSpec s | none => c)
           | none => c
       -- comparison with the model
-      let c := if injected then { c with faulted := true } else c
+      -- a node API error excuses what is lost with a watcher that ENDS on it (the supervisor starts a new one, see `wrestart`);
+      -- a watcher that carries on stays bound by the statement ("while the watcher runs")
+      let c := if injected && exit then { c with faulted := true } else c
+      let c := if exit then { c with implAlive := false } else c
       let modelOut := delivered.map fun us => us.map showUnconf
       let c :=
         if exit ≠ !s'.alive then c.addDiff s!"fetch tick exit: model={!s'.alive} impl={exit} reqs={reqs.take 8}"
@@ -604,11 +673,21 @@ def doWtick (st : St) (fs : List String) : St × List String :=
         else c
       let lastNext := (pagesRaw.filterMap (·.2)).getLast?
       -- what the implementation itself delivered is what the later Spec evaluation refers to
-      let implUs := attachIds (pages.flatMap fun (_, p) => match p with | some pg => pg.events | none => []) ((implOut.getD []).filterMap parseUev)
+      let implUs := attachIds ((pages.flatMap fun (_, p) => match p with | some pg => pg.events | none => []) ++ c.lost.map (·.1.ev)) ((implOut.getD []).filterMap parseUev)
       let c := if !exit && !implUs.isEmpty && !en then
                  c.addSpec "poller-not-enabled events were delivered to the event loop but the block poller is not enabled (no height tick will ever process them)"
                else c
-      let c := trackFetched { c with st := s', implFrom := if lastNext.isSome then lastNext else c.implFrom } implUs
+      -- A request of the round failed, the watcher carries on, and nothing was handed to the event loop: the events the node DID
+      -- serve in the round's page answers have been fetched.  Whether the watcher keeps them for later or asks for them again
+      -- (its next round may start where this one started, or where it stopped) is its business; that they reach the event loop
+      -- is demanded at the drain.
+      let survived := !exit && injected && implOut.isNone && !pagesRaw.isEmpty
+      let servedOk := handleUnconfirmed ans (pages.flatMap fun (_, p) => match p with | some pg => pg.events | none => [])
+      let alt := if survived then (if c.implFromAlt.isSome then c.implFromAlt else c.implFrom) else if pagesRaw.isEmpty then c.implFromAlt else none
+      let c := if survived then
+                 { c with lost := c.lost ++ (servedOk.filter fun u => !(c.lost.any fun t => t.1.ev.id == u.ev.id) && !(c.tracked.any fun t => t.1.ev.id == u.ev.id)).map (·, true) }
+               else c
+      let c := trackFetched { c with st := s', implFrom := if lastNext.isSome then lastNext else c.implFrom, implFromAlt := alt } implUs
       let grew : Bool := match cnt, pagesRaw.getLast? with | some cn, some (_, some nx) => decide (nx > cn) | _, _ => false
       ({ st with c := c, ticks := st.ticks + 1, pages := st.pages + pagesRaw.length, grew := st.grew + (if grew then 1 else 0) }, [])
   | _, _, _, _, _ => ({ st with c := c.addDiff "unparsable wtick line" }, [])
@@ -650,8 +729,16 @@ def doWheight (st : St) (fs : List String) : St × List String :=
                 ("poll-mainnet-transfer-floor", !inRange h || floorOk cfg.mainnet u.msg h now)]
       match firstFailing cands with
       | some cl =>
-        if cl = "unknown" then some s!"poll-forwarded-altered {p} corresponds to no event delivered to the event loop"
-        else some s!"{cl} forwarded {p} while the node reports height {height} (height handed to the event loop: {passed})"
+        if cl = "unknown" then
+          let all := (c.tracked ++ c.lost).filterMap fun (u, _) => (hdrs.lookup u.ev.block).map fun h =>
+            (s!"the event at position {u.ev.id} of the governance contract's log (block timestamp {h.ts})", pubOf (u, h))
+          let viaReobs := match parsePub p with
+            | some pp => (match c.reobsFwd.find? (fun q => match parsePub q with | some qq => qq.tx == pp.tx && qq.seq == pp.seq && qq.nonce == pp.nonce | none => false) with
+                          | some q => s!"; a re-observation request of this life handed {q} to the signer for the same event: two guardians would sign different digests for one message"
+                          | none => "")
+            | none => ""
+          some s!"poll-forwarded-altered {p} corresponds to no event delivered to the event loop{describeAltered p all}{viaReobs}{c.note}"
+        else some s!"{cl} forwarded {p} while the node reports height {height} (height handed to the event loop: {passed}){if cl = "poll-mainnet-transfer-floor" then s!" at {now}: the floor is max(cl, 205) x 16000 ms after the block timestamp" ++ c.note else ""}"
       | none =>
         let good := cands.filter fun cd => cd.all (·.2)
         if count p impl + count p c.fwdAll > cands.length then
@@ -661,7 +748,9 @@ def doWheight (st : St) (fs : List String) : St × List String :=
                     else if exit && !injected && c.fetch then
                       some "malformed-event-ends-watcher the event loop ended although every node request succeeded (an event let through by the fetch loop made the handler fail)"
                     else specFwd) with | some s => c.addSpec s | none => c
-    let c := if injected then { c with faulted := true } else c
+    let c := if injected && exit then { c with faulted := true } else c
+    let wasAlive := c.implAlive
+    let c := if exit then { c with implAlive := false } else c
     -- comparison with the model
     let expReqs := sortStrs ((if viaFH then [s!"height>{height}"] else []) ++ before.pending.flatMap fun pb =>
       (match o.main pb.block with | some b => [s!"main:{pb.block}>{if b then "1" else "0"}"] | none => [s!"main:{pb.block}>e"]) ++
@@ -677,10 +766,18 @@ def doWheight (st : St) (fs : List String) : St × List String :=
       else c
     -- liveness bookkeeping (C09): a delivered event whose block is canonical at every tick is owed to the signer
     let tracked := c.tracked.map fun (u, stayed) => (u, stayed && o.main u.ev.block == some true)
-    let c := { c with st := s', fwdAll := c.fwdAll ++ impl, tracked := tracked, hdrs := hdrs }
+    let lost := c.lost.map fun (u, stayed) => (u, stayed && o.main u.ev.block == some true)
+    let c := { c with st := s', fwdAll := c.fwdAll ++ impl, tracked := tracked, lost := lost, hdrs := hdrs }
     let drain := (kvB fs "drain").getD false
     let c :=
-      if drain && !exit && !c.faulted && before.alive then
+      if drain && !exit && !c.faulted && wasAlive then
+        -- fetched and never handed to the event loop although the watcher kept running
+        let c := match lost.find? (fun (u, stayed) => match o.hdr u.ev.block with
+                    | some h => stayed && u.ev.idx == 0 && u.msg.sender == cfg.bridge && isEventConfirmed u.msg h now height cfg.mainnet
+                                && count (showPub (pubOf (u, h))) c.fwdAll == 0
+                    | none => false) with
+          | some (u, _) => c.addSpec s!"final-message-not-forwarded the event at position {u.ev.id} of the governance contract's log (tx {u.ev.tx}, sequence {u.msg.seq}) was served to the fetch loop in a page answer of a round in which another request failed; the watcher kept running and never handed it to the event loop, although it is the token bridge's, well-formed, final and its block stayed canonical: forwarded 0 times (owed 1)"
+          | none => c
         let owed := tracked.filterMap fun (u, stayed) =>
           match o.hdr u.ev.block with
           | some h => if stayed && u.ev.idx == 0 && u.msg.sender == cfg.bridge && isEventConfirmed u.msg h now height cfg.mainnet
@@ -701,7 +798,13 @@ def doWskip (st : St) (fs : List String) : St × List String :=
     let o := oracleOf ⟨mainT, hdrT⟩
     let drain := (kvB fs "drain").getD false
     let c :=
-      if drain && !c.faulted && c.st.alive then
+      if drain && !c.faulted && c.implAlive then
+        let c := match c.lost.find? (fun (u, stayed) => match o.hdr u.ev.block with
+                    | some h => stayed && o.main u.ev.block == some true && u.ev.idx == 0 && u.msg.sender == c.cfg.bridge
+                                && isEventConfirmed u.msg h now height c.cfg.mainnet && count (showPub (pubOf (u, h))) c.fwdAll == 0
+                    | none => false) with
+          | some (u, _) => c.addSpec s!"final-message-not-forwarded the event at position {u.ev.id} of the governance contract's log (tx {u.ev.tx}, sequence {u.msg.seq}) was served to the fetch loop in a page answer of a round in which another request failed; the watcher kept running and never handed it to the event loop (the block poller is even disabled), although it is the token bridge's, well-formed, final and its block stayed canonical: forwarded 0 times (owed 1)"
+          | none => c
         let owed := c.tracked.filterMap fun (u, stayed) =>
           match o.hdr u.ev.block with
           | some h => if stayed && o.main u.ev.block == some true && u.ev.idx == 0 && u.msg.sender == c.cfg.bridge
@@ -735,7 +838,7 @@ def doWrestart (st : St) (fs : List String) : St × List String :=
       | [r] => if r = "count>e" then some none else if r = "count>404" then some (some 0)
                else if r.startsWith "count>" then (parseInt (r.drop 6).toString).map some else none
       | _ => none
-    let c := { c with tracked := c.tracked.map (fun (t : Unconf × Bool) => (t.1, false)), implFrom := none }
+    let c := { c with tracked := c.tracked.map (fun (t : Unconf × Bool) => (t.1, false)), implFrom := none, implFromAlt := none, lost := [], implAlive := !exit }
     match cnt with
     | none =>
       let c := if (splitList reqs ",").any (fun r => r.startsWith "count@") then c.addSpec s!"wrong-contract-polled {reqs}" else c.addDiff s!"unexpected requests at restart {reqs}"
@@ -766,6 +869,7 @@ def doWreobs (st : St) (fs : List String) : St × List String :=
       | some p => c.addSpec s!"reobs-wellformed-event-dropped {p} is the token bridge's message, final, in a canonical block and (attestation) equal to what the token contract reports in this call; every node request succeeded, yet the re-observation request did not hand it to the signer"
       | none => c
   let c := match r.diff with | some d => c.addDiff d | none => c
+  let c := { c with reobsFwd := c.reobsFwd ++ splitList ((kv fs "fwd").getD "-") "," }
   ({ st with c := c, reobsFwd := st.reobsFwd + r.nFwd, wreobs := st.wreobs + 1 }, [])
 
 def step (st : St) (line : String) : St × List String :=
